@@ -345,12 +345,15 @@ where
             )
             .collect::<Vec<_>>();
 
+        let growing_threshold = self.growing_threshold;
         nodes.into_iter().for_each(|(coord, distribution_factor)| {
             let node = self.nodes.get_mut(&coord).unwrap();
             if let Some(distribution_factor) = distribution_factor {
-                node.error += distribution_factor * node.error
+                // NOTE: error is compared only with the growing threshold, so keep it bounded: otherwise it
+                // grows geometrically for a node which is never hit itself and overflows to infinity
+                node.error = (node.error + distribution_factor * node.error).min(growing_threshold)
             } else {
-                node.error = 0.5 * self.growing_threshold
+                node.error = 0.5 * growing_threshold
             }
         });
     }
